@@ -69,6 +69,7 @@ type FuncSpec struct {
 	GhostAt    []GhostAt
 	Asserts    []AssertAt
 	Owned      []string // locals that must only ever hold slices allocated by this activation
+	Acquires   []*Clause // mutexes this function locks itself: a caller must not hold them
 	File       string
 	Line       int
 	Used       bool
@@ -387,6 +388,16 @@ func (sp *Specs) LoadSpecFile(path, pkgName string) {
 		case "mutual":
 			if cur != nil {
 				cur.Mutual = true
+			}
+		case "acquires":
+			if cur == nil {
+				errf(l, "acquires outside func block")
+				continue
+			}
+			for _, part := range splitTop(rest) {
+				if c := mkClause(l, part); c != nil {
+					cur.Acquires = append(cur.Acquires, c)
+				}
 			}
 		case "owned":
 			if cur == nil {
